@@ -813,6 +813,7 @@ type Env struct {
 	pkg    *types.Package
 	lookup func(name string) *Val // local variables of the function (loop invariants)
 	owned  bool                   // st is a private copy
+	bound  map[string]*Val        // quantified variables (visible inside old() too)
 }
 
 func (e *Env) child() *Env {
@@ -955,10 +956,29 @@ func (e *Env) eval(x *Expr) *Val {
 			}
 			b := BoundVar(v.Name, ss[0])
 			bound = append(bound, b)
-			ne.vars[v.Name] = mkVal(t, []*Term{b})
+			nb := map[string]*Val{}
+			for k2, v2 := range ne.bound {
+				nb[k2] = v2
+			}
+			nb[v.Name] = mkVal(t, []*Term{b})
+			ne.bound = nb
 		}
 		body := ne.evalBool(x.X)
+		var pats [][]*Term
+		for bi, b := range bound {
+			nb, nbody, pat := reindexBound(b, body)
+			if nb != nil {
+				bound[bi] = nb
+				body = nbody
+				if pat != nil {
+					pats = append(pats, []*Term{pat})
+				}
+			}
+		}
 		if x.Op == "forall" {
+			if len(bound) == 1 && len(pats) == 1 {
+				return boolVal(Forall(bound, body, pats...))
+			}
 			return boolVal(Forall(bound, body))
 		}
 		return boolVal(Exists(bound, body))
@@ -1077,6 +1097,9 @@ func (e *Env) evalIdent(name string) *Val {
 		return boolVal(False)
 	case "nil":
 		return &Val{Typ: types.Typ[types.UntypedNil], L: []*Term{Const(32, 0)}}
+	}
+	if v, ok := e.bound[name]; ok {
+		return v
 	}
 	if v, ok := e.vars[name]; ok {
 		return v
@@ -1539,6 +1562,11 @@ func (e *Env) evalCall(x *Expr) *Val {
 	// a real Go function of the package: execute its body symbolically
 	if sp := c.W.Prog.Package(pkg); sp != nil {
 		if fn := sp.Func(fname); fn != nil {
+			if strings.HasPrefix(strings.ToLower(fname), "spec") {
+				if v := e.callSpecOpaque(fn, x.Args); v != nil {
+					return v
+				}
+			}
 			return e.callGo(fn, nil, x.Args)
 		}
 	}
@@ -1638,7 +1666,20 @@ func (e *Env) callGo(fn *ssa.Function, recv *Val, argExprs []*Expr) *Val {
 	st := e.privateState()
 	c.quiet++
 	saveVia := c.viaStack
-	defer func() { c.quiet--; c.viaStack = saveVia }()
+	nAssume := len(c.assumes)
+	defer func() {
+		c.quiet--
+		c.viaStack = saveVia
+		// facts recorded while executing the body must not mention
+		// quantified variables of the enclosing specification
+		kept := c.assumes[:nAssume]
+		for _, a := range c.assumes[nAssume:] {
+			if !a.hasB {
+				kept = append(kept, a)
+			}
+		}
+		c.assumes = kept
+	}()
 	if !c.canInline(fn) {
 		specErr("cannot inline %s in specification", fn.Name())
 	}
@@ -1736,4 +1777,147 @@ func (e *Env) evalAddr(x *Expr) *Addr {
 	}
 	specErr("expression is not addressable")
 	return nil
+}
+
+// reindexBound re-parameterises "forall k :: ... A[off+k] ..." as a
+// quantifier over the absolute index j = off+k, so that solvers can
+// instantiate it by matching select(A, j) (no arithmetic in the trigger).
+func reindexBound(k *Term, body *Term) (*Term, *Term, *Term) {
+	if k.S != BV(64) {
+		return nil, nil, nil
+	}
+	var off *Term
+	var arr *Term
+	direct := false
+	seen := map[*Term]bool{}
+	var find func(t *Term)
+	find = func(t *Term) {
+		if seen[t] || !t.hasB || off != nil || direct {
+			return
+		}
+		seen[t] = true
+		if t.Op == "select" {
+			ix := t.Args[1]
+			if ix == k {
+				direct = true
+				return
+			}
+			if ix.Op == "bvadd" && !t.Args[0].hasB {
+				if ix.Args[1] == k && !ix.Args[0].hasB {
+					off, arr = ix.Args[0], t.Args[0]
+					return
+				}
+				if ix.Args[0] == k && !ix.Args[1].hasB {
+					off, arr = ix.Args[1], t.Args[0]
+					return
+				}
+			}
+		}
+		for _, a := range t.Args {
+			find(a)
+		}
+	}
+	find(body)
+	if off == nil || direct {
+		return nil, nil, nil
+	}
+	j := BoundVar("j", BV(64))
+	nbody := Subst(body, map[*Term]*Term{k: Sub(j, off)})
+	return j, nbody, Select(arr, j)
+}
+
+// callSpecOpaque: inside a quantifier, a specification function applied to
+// quantified arguments is kept as an uninterpreted symbol F(args) together
+// with its defining axiom "forall x :: F(x) == body(x)" (trigger F(x)), so
+// that the bit-level definition is only unfolded at the instances a proof
+// needs. Returns nil when the call has no quantified argument (then the
+// body is inlined as usual).
+func (e *Env) callSpecOpaque(fn *ssa.Function, argExprs []*Expr) *Val {
+	c := e.c
+	params := fn.Signature.Params()
+	if params.Len() != len(argExprs) || fn.Signature.Results().Len() != 1 {
+		return nil
+	}
+	args := make([]*Val, len(argExprs))
+	anyB := false
+	for i, ax := range argExprs {
+		v := e.eval(ax)
+		pt := params.At(i).Type()
+		if v.Typ == untypedInt {
+			if w, _, ok := isIntType(pt); ok {
+				v = intVal(pt, convW(v.T(), w))
+			}
+		}
+		if v.L == nil {
+			return nil
+		}
+		for _, l := range v.L {
+			if l.hasB {
+				anyB = true
+			}
+			if l.S.Kind == SArray {
+				return nil
+			}
+		}
+		args[i] = v
+	}
+	if !anyB {
+		return nil
+	}
+	rt := fn.Signature.Results().At(0).Type()
+	rs := leafSorts(rt)
+	for _, srt := range rs {
+		if srt.Kind == SArray {
+			return nil
+		}
+	}
+	name := "def!" + sanitize(fullName(fn))
+	if c.defAxioms == nil {
+		c.defAxioms = map[*ssa.Function]bool{}
+	}
+	if !c.defAxioms[fn] {
+		c.defAxioms[fn] = true
+		// definitional axiom over fresh bound variables
+		var bvs []*Term
+		var bargs []*Val
+		for i := 0; i < params.Len(); i++ {
+			pt := params.At(i).Type()
+			ss := leafSorts(pt)
+			l := make([]*Term, len(ss))
+			for j, srt := range ss {
+				b := BoundVar(fmt.Sprintf("x%d_%d", i, j), srt)
+				l[j] = b
+				bvs = append(bvs, b)
+			}
+			bargs = append(bargs, mkVal(pt, l))
+		}
+		st := e.st.clone()
+		c.quiet++
+		nAssume := len(c.assumes)
+		saveVia := c.viaStack
+		res := c.inlineCall(st, fn, nil, bargs, token.NoPos)
+		c.quiet--
+		c.viaStack = saveVia
+		c.assumes = c.assumes[:nAssume]
+		if res == nil || res.L == nil {
+			specErr("specification function %s does not return a flat value", fn.Name())
+		}
+		var eqs []*Term
+		var pat []*Term
+		for j := range rs {
+			app := UF(fmt.Sprintf("%s#%d", name, j), rs[j], bvs...)
+			eqs = append(eqs, Eq(app, res.L[j]))
+			pat = append(pat, app)
+		}
+		c.assumes = append(c.assumes, Forall(bvs, And(eqs...), pat))
+	}
+	var in []*Term
+	for _, a := range args {
+		in = append(in, a.L...)
+	}
+	out := make([]*Term, len(rs))
+	for j := range rs {
+		out[j] = UF(fmt.Sprintf("%s#%d", name, j), rs[j], in...)
+	}
+	return mkVal(rt, out)
 }
